@@ -732,6 +732,22 @@ func runC14(r *Report) {
 		if f == nil {
 			continue
 		}
+		// the read-modify-write may live in a helper both operations share
+		// (`h.updateList(key, missingOK, func(list) list)`): the helper is analysed in their place
+		if len(Calls(f, false, "Storage.GetList", "Storage.Get", "Storage.Set", "Storage.SetList")) == 0 {
+			var via *ssa.Function
+			Instrs(f, func(in ssa.Instruction) {
+				if c, ok := in.(*ssa.Call); ok && via == nil {
+					if h := c.Common().StaticCallee(); h != nil && h.Pkg == f.Pkg && len(h.Blocks) > 0 && h != f &&
+						len(Calls(h, false, "Storage.GetList", "Storage.Get")) > 0 && len(Calls(h, false, "Storage.Set", "Storage.SetList")) > 0 {
+						via = h
+					}
+				}
+			})
+			if via != nil {
+				f = via
+			}
+		}
 		ls := ComputeLockSets(f, nil)
 		var reads, writes []ssa.CallInstruction
 		reads = append(reads, Calls(f, false, "Storage.GetList", "Storage.Get")...)
